@@ -182,6 +182,7 @@ def prefix_order(ctx):
 @PROP.obligation('C17.unit-parse', canaries=[
     mut.replace_expr('values', 'Value.__init__', 'value.split()', "value.split(' ')", 'unit split at single blanks only'),
     mut.drop_stmt('values', 'Value.__init__', "raise ValueError('Currency symbol or denominator not recognised')", 'unknown units read as whole coins'),
+    mut.replace_stmt('values', 'Value.__init__', 'den_input = 1', 'den_input = den_arg or 1', 'denominator argument rescales strings without prefix', nth=0),
 ])
 def unit_parse(ctx):
     """Value.__init__ on strings: number and unit are separated at any run of white space (str.split() without argument), and when a unit is
@@ -233,6 +234,22 @@ def unit_parse(ctx):
     exp = {'BTC': 5.0, 'mBTC': 0.005, 'kBTC': 5000.0, None: 5.0, 'mxyz': 'raise'}
     for u, e in exp.items():
         ctx.require(outcomes[u] == e, q, "Value('5%s') is %s, expected %s" % ('' if u is None else ' ' + u, outcomes[u], e), blk[0])
+    # the denominator ARGUMENT only selects the unit the amount is presented in: it never rescales what the string says
+    for unit, den_arg in (('BTC', 0.001), (None, 0.001), ('BTC', 1000), ('mBTC', 1000), ('mBTC', 0.001)):
+        st = State(env={'self': S(SELF), 'value': '5' if unit is None else '5 ' + unit, 'den_arg': den_arg, 'network': 'bitcoin'})
+        st.heap[('attr', ('attr', SELF, 'network'), 'currency_code')] = 'BTC'
+        it.frames.append([])
+        try:
+            end = it.exec_block(blk[0].body, st)
+        except AnalysisError as e:
+            ctx.undecided('Value.__init__: string branch not evaluable for unit %s with a denominator argument: %s' % (unit, str(e)[:100]))
+        it.frames.pop()
+        got = None if end is None else (end.heap.get(('attr', SELF, 'value')), end.heap.get(('attr', SELF, 'denominator')))
+        want = ({'BTC': 5.0, None: 5.0, 'mBTC': 0.005}[unit], den_arg)
+        ctx.saw("Value('5%s', denominator=%s) -> value %s, presented in %s" % ('' if unit is None else ' ' + unit, den_arg, got and got[0], got and got[1]))
+        ctx.require(got == want, q, "Value('5%s', denominator=%s) holds %s coins presented in %s, expected %s coins presented in %s" % (
+            '' if unit is None else ' ' + unit, den_arg, got and got[0], got and got[1], want[0], want[1]), blk[0],
+            "the presentation unit rescales the amount: Value('5 BTC', 'm') is 0.005 BTC and reaches transaction outputs as 500000 instead of 500000000 satoshi")
     for u in ('xyz', 'bits'):
         if outcomes[u] != 'raise':
             ctx.violate(q, 'a unit that is neither a currency code nor a denominator is ignored: the amount is read as whole coins', blk[0],
@@ -511,3 +528,13 @@ def provider_rounding(ctx):
                 ctx.violate(qual, 'a float amount is truncated, not rounded: `%s`' % norm(c)[:110], c, "an amount such as 0.29 coins becomes 28999999 units: one unit short")
     ctx.saw('%d float-based conversions in the service clients inspected' % n)
     ctx.floor(n, 15, 'float-based conversions')
+
+
+@PROP.obligation('C17.parameters-read', canaries=[
+    mut.replace_expr('values', 'Value.to_hex', 'self.value_sat.to_bytes(length // 2, byteorder).hex()', 'self.to_bytes(length // 2).hex()', 'to_hex ignores the byte order it is asked for'),
+])
+def parameters_read(ctx):
+    """Every parameter of every function of values.py (denominator, decimals, length, byteorder, currency_code, ...) is read by the function
+    that accepts it: the textual / hexadecimal form of an amount follows the options the caller states."""
+    from .common_params import parameters_read as run
+    run(ctx, ['values'], 'the form of the amount the caller asked for (byte order, length, unit) is silently replaced by the default: to_hex(byteorder="big") of 1 sat reads back as 72057594037927936', 30)
